@@ -134,6 +134,7 @@ func cmdCheck(args []string) int {
 		fmt.Println("UNDECIDED property="+*prop+" load failed:", err)
 		return 2
 	}
+	p.seed = seed
 	var findings []KnownFinding
 	if b, err := os.ReadFile(*known); err == nil {
 		if err := json.Unmarshal(b, &findings); err != nil {
@@ -154,12 +155,16 @@ func cmdCheck(args []string) int {
 		}
 		fi := p.funcs[k]
 		if fi == nil {
-			undecided = append(undecided, "contract target missing: "+k+" ("+s.Where+")")
+			// the function a contract is attached to no longer exists: the contract cannot be established
+			obls = append(obls, syntheticFailure(k, s, *prop, "contract target missing: the function "+k+" named by the contract at "+s.Where+" does not exist in the current code"))
 			continue
 		}
 		r := p.VerifyFunc(fi, s)
 		if r.Err != nil {
-			undecided = append(undecided, fmt.Sprintf("%s: %v", k, r.Err))
+			// the current code of the function cannot be brought under its contract (the contract names something
+			// that no longer exists, or the code uses a construct outside the verifier's subset): the obligation
+			// "function satisfies its contract" is not discharged
+			obls = append(obls, syntheticFailure(k, s, *prop, fmt.Sprintf("the contract of %s cannot be established on the current code: %v", k, r.Err)))
 			continue
 		}
 		if r.Trusted {
@@ -322,13 +327,11 @@ func cmdCheck(args []string) int {
 		b, _ := json.MarshalIndent(rep, "", " ")
 		os.WriteFile(path, b, 0o644)
 		if o.Weak && !rep.Reproduced {
-			// the function calls something that has no contract (abstracted by havoc): a failed proof without a
-			// replayed counterexample is undecided, not a violation
-			fmt.Printf("UNDECIDED property=%s obligation %s failed under the havoc abstraction of a callee without contract (%s); no counterexample replayed\n", *prop, o.Name, path)
-			if exit == 0 {
-				exit = 2
-			}
-			continue
+			// the function's proof annotations are stale or it calls something without a contract: the contract of
+			// the function can no longer be established. That is a failed obligation (reported, no input found).
+			rep.Note = "the function-level contract no longer verifies (stale loop annotations or a callee without contract, abstracted by havoc); " + rep.Note
+			b, _ = json.MarshalIndent(rep, "", " ")
+			os.WriteFile(path, b, 0o644)
 		}
 		suffix := ""
 		if !rep.Reproduced {
@@ -434,4 +437,11 @@ func matchFinding(fs []KnownFinding, prop string, o *Obligation) *KnownFinding {
 		}
 	}
 	return nil
+}
+
+func syntheticFailure(k string, s *FuncSpec, prop string, why string) *Obligation {
+	key := k[strings.Index(k, "::")+2:]
+	return &Obligation{Name: key + "/contract-verifiable/1", Kind: "contract-verifiable", Props: []string{prop}, Func: k,
+		Text: why, Where: s.Where, Goal: "false",
+		Result: &SolveResult{Status: "unknown", Backend: "none", Output: why, All: map[string]string{}}}
 }
